@@ -26,6 +26,7 @@ FMTS = {
 # scaled services: (cri_bits, cri_rate, frc_bits, payload_bits, payload_rate, modulation, biphase)
 SVC = {
     "ttx": (4, 1000, 2, 8, 1000, "NRZ_LSB", False),      # cri rate == bit rate, octets lsb first (Teletext, Caption)
+    "ttx16": (3, 1000, 1, 16, 1000, "NRZ_LSB", False),   # two payload octets (output buffer size check)
     "msb": (3, 1000, 2, 6, 1000, "NRZ_MSB", False),      # bit-wise, msb first
     "vps": (4, 2000, 0, 8, 1000, "BIPHASE_MSB", True),   # cri at twice the bit rate, no FRC, octets msb first (VPS)
     "wss": (4, 3000, 0, 5, 1000, "BIPHASE_LSB", True),   # cri faster than payload, bit-wise lsb first (WSS)
@@ -130,12 +131,14 @@ def obligations(tier, seed):
     # ---- layer 1: real vbi3 slicer, exact-size objects --------------------------------------------------
     q = [gp3("Y8", "ttx", 2500, 40, 0), gp3("Y8", "ttx", 2000, 32, 2), gp3("YUYV", "ttx", 3100, 46, 1),
          gp3("Y8", "vps", 4000, 44, 0), gp3("RGB16_LE", "wss", 4500, 44, 2), gp3("RGB24", "msb", 2500, 34, 0),
-         gp3("Y8", "lp", 25000, 53, 0), gp3("RGBA32_LE", "vps", 3000, 34, 1)]
-    t = list(q)
+         gp3("RGBA32_LE", "vps", 3000, 34, 1)]
+    t = list(q) + [gp3("Y8", "lp", 25000, 53, 0)]   # low-pass instances: 250 s each, thorough only
     for fmt in ("Y8", "YUYV", "UYVY", "RGB24", "RGBA32_LE", "RGBA32_BE", "RGB16_LE", "RGB16_BE", "RGBA15_LE", "ARGB15_BE"):
-        for svc, rate, spl in (("ttx", 2500, 40), ("ttx", 1500, 24), ("ttx", 3100, 46), ("msb", 2000, 26), ("msb", 2700, 33),
-                               ("vps", 3000, 34), ("vps", 4000, 44), ("wss", 4500, 44), ("wss", 3000, 32)):
-            for off in (0, 1, 3):
+        cfgs = [("ttx", 2500, 40), ("msb", 2700, 33), ("vps", 4000, 44), ("wss", 3000, 32)]
+        if fmt in ("Y8", "YUYV"):
+            cfgs += [("ttx", 1500, 24), ("ttx", 3100, 46), ("vps", 3000, 34), ("msb", 2000, 26), ("wss", 4500, 44)]
+        for svc, rate, spl in cfgs:
+            for off in (0, 3):
                 g = gp3(fmt, svc, rate, spl + (off and 2), off)
                 if g not in t:
                     t.append(g)
@@ -151,11 +154,11 @@ def obligations(tier, seed):
                        "and on failure the payload buffer is unmodified" % ("" if STRICT else " + the SLACK bytes of the known over-read, asserted tight"),
                   encodes=["vbi3_bit_slicer_set_params", "vbi3_bit_slicer_slice", "bit_slicer_Y8", "bit_slicer_YUYV", "bit_slicer_RGB24_LE",
                            "bit_slicer_RGBA24_LE", "bit_slicer_RGB16_LE", "bit_slicer_RGB16_BE", "low_pass_bit_slicer_Y8"],
-                  bounds="scaled services (1..4 CRI bits, 0..2 FRC bits, 1..8 payload bits, 1.5..26.5 samples per bit), 24..60 samples per line, "
+                  bounds="scaled services (1..4 CRI bits, 0..2 FRC bits, 1..8 payload bits (16 for the buffer size check), 1.5..26.5 samples per bit), 24..60 samples per line, "
                          "(format, rate, samples_per_line, offset) enumerated on the grid; image content, CRI, CRI mask and FRC fully symbolic",
                   outside="full-rate lines (702..2048 samples) with symbolic content; covered by layer 2 (closed form at broadcast parameters)",
                   assumes=[] if STRICT else ["KNOWN_SLICER_OVERREAD: line object extended by the SLACK bytes the closed form predicts (known finding)"],
-                  grid=t, quick_grid=q, reach=["end", "sliced", "no_signal"], timeout=300, mem_gb=3, units=U_TAB, solver="cadical"))
+                  grid=t, quick_grid=q, reach=["end", "sliced", "no_signal"], timeout=600, mem_gb=3, units=U_TAB, solver="cadical"))
 
     # ---- layer 1, legacy interface ------------------------------------------------------------------------
     ql = [gpl("Y8", "ttx", 2500, 40), gpl("RGB16_LE", "vps1", 3000, 36), gpl("YUYV", "wss1", 3000, 35)]
@@ -194,8 +197,8 @@ def obligations(tier, seed):
                   stubs=["_vbi_log_printf not reached (log mask 0)"]))
 
     # ---- layer 3: output side ------------------------------------------------------------------------------
-    qb = [dict(gp3("Y8", "ttx", 2500, 40, 0), BUFSZ=b) for b in (1, 2)] + [dict(gp3("Y8", "wss", 4500, 44, 0), BUFSZ=1)]
-    tb = qb + [dict(gp3("Y8", "ttx", 2500, 40, 0), BUFSZ=3), dict(gp3("YUYV", "vps", 3000, 34, 0), BUFSZ=1),
+    qb = [dict(gp3("Y8", "ttx16", 2000, 44, 0), BUFSZ=b) for b in (1, 2)] + [dict(gp3("Y8", "wss", 4500, 44, 0), BUFSZ=1)]
+    tb = qb + [dict(gp3("Y8", "ttx16", 2000, 44, 0), BUFSZ=3), dict(gp3("YUYV", "vps", 3000, 34, 0), BUFSZ=1),
                dict(gp3("Y8", "msb", 2500, 34, 0), BUFSZ=1), dict(gp3("Y8", "msb", 2500, 34, 0), BUFSZ=2)]
     for g in tb:
         g["SLACK"] = 0
